@@ -263,6 +263,21 @@ func genScript(c *kernel.RunCtx, n int, pushOnly bool) []byte {
 				depth++
 			}
 		case 4:
+			if c.Bool(1, 14) {
+				// a non-minimally encoded number, duplicated, one copy normalised, the two compared
+				d := [][]byte{{0x01, 0x00, 0x80}, {0x05, 0x00, 0x00, 0x00, 0x80}, {0x7f, 0x00}, {0x00, 0x80}, {0x01, 0x00}}[c.Choose(5)]
+				s = append(s, pushOf(d)...)
+				s = append(s, []byte{0x76, 0x78}[c.Choose(2)]) // DUP / OVER
+				s = append(s, 0x81)                            // BIN2NUM
+				if c.Bool(1, 2) {
+					// drop the normalised copy and compare the OTHER copy with a fresh push of the same literal
+					s = append(s, 0x75)
+					s = append(s, pushOf(d)...)
+				}
+				s = append(s, []byte{0x87, 0x88, 0x7c}[c.Choose(3)])
+				c.End()
+				continue
+			}
 			if c.Bool(1, 10) {
 				// a duplicated item, one copy of which is then split / concatenated
 				d := c.Bytes(2 + c.Choose(10))
